@@ -138,7 +138,7 @@ func (en *Engine) VerifyFunction(fn *ssa.Function, fc *FuncContract, pc *PkgCont
 		}
 		res.Obligations = en.obls[start:]
 	}()
-	st := &State{mem: map[*Region]Cell{}, bounds: NewBounds(), sideSeen: map[int]bool{}, typed: map[int]bool{}, cutDone: map[int]bool{}}
+	st := &State{mem: map[*Region]Cell{}, bounds: NewBounds(), sideSeen: map[int]bool{}, typed: map[int]bool{}, cutDone: map[int]bool{}, freshRegions: map[*Region]bool{}, ifaceRefined: map[int]IfaceV{}, ifaceDenied: map[int]bool{}}
 	fr := &Frame{fn: fn, env: map[ssa.Value]Value{}, visits: map[int]int{}, loopSt: map[int]*loopState{}}
 	if fn.Blocks == nil {
 		res.Errors = append(res.Errors, "function has no Go body")
@@ -156,7 +156,14 @@ func (en *Engine) VerifyFunction(fn *ssa.Function, fc *FuncContract, pc *PkgCont
 			fail("contract for %s: parameter %d is named %q in the code, %q in the contract", res.Func, i, p.Name(), fc.Params[i])
 		}
 		var v Value
-		if g, ok := fc.Binds[p.Name()]; ok {
+		if g, ok := fc.SliceBind[p.Name()]; ok && en.sliceBindActive {
+			gv := en.lookupGlobal(fn.Pkg.Pkg.Path(), g)
+			if gv == nil {
+				fail("contract of %s binds %s to unknown global %s", res.Func, p.Name(), g)
+			}
+			v = en.load(st, PtrV{R: en.globalRegion(gv)}, p.Type())
+			en.curFunc += "{" + p.Name() + "==" + g + "}"
+		} else if g, ok := fc.Binds[p.Name()]; ok {
 			gv := en.lookupGlobal(fn.Pkg.Pkg.Path(), g)
 			if gv == nil {
 				fail("contract of %s binds %s to unknown global %s", res.Func, p.Name(), g)
@@ -353,6 +360,9 @@ func (en *Engine) checkFrame(s *State, sc *specCtx, fc *FuncContract, entryMem m
 	}
 	for r := range s.mem {
 		if r.kind == "global" {
+			if r.global == nil || r.global.Pkg == nil || !modulePkg(r.global.Pkg.Pkg.Path()) {
+				continue // variables of other packages are outside the module's frame
+			}
 			if _, ok := exp[r]; !ok {
 				exp[r] = en.globalCell(s, r)
 			}
